@@ -36,6 +36,9 @@ pub struct Behaviour {
     pub assumptions: &'static [&'static str],
     /// number of generated units that are additionally run under Miri in the thorough tier (0 = none)
     pub miri_units: usize,
+    /// a lane of the property's own beside the generated types (e.g. values of dynamically sized types, which the shared
+    /// observers cannot enumerate by value); it adds to the report
+    pub extra: Option<fn(&Ctx, &mut Report, &std::path::Path)>,
 }
 
 thread_local! {
@@ -321,6 +324,9 @@ pub fn run(ctx: &Ctx, b: &Behaviour) -> i32 {
         }
     }
     check::clean_work(&tag);
+    if let Some(extra) = b.extra {
+        extra(ctx, &mut rep, &so);
+    }
     // ---- Miri lane (thorough tier): undefined behaviour that happens to give the right answer is still a failure
     if b.miri_units > 0 && (ctx.thorough() || std::env::var("VERIF_MIRI").is_ok()) {
         let small: Vec<&(usize, Prepared)> = prepared.iter().filter(|(_, p)| p.spec.variants.len() <= 6 && p.unit.body.len() < 20000).take(b.miri_units).collect();
